@@ -100,6 +100,7 @@ package builder
 //@ emits [C01,C07] "[topIndex-%d : " arg1 == len(b.vnode.G.ProductoinRules[i].RighPart)
 //@ emits [C01,C07] "PopStateSym(%d)" arg1 == len(b.vnode.G.ProductoinRules[i].RighPart)
 //@ loop 0: invariant 1 <= i
+//@ loop 0: decreases len(b.vnode.G.ProductoinRules) - i
 
 // TypeScript translate(): exactly the terminals get a case, token code -> symbol id (same numbers as the Go builder)
 //@ func (*TsBuilder).buildTranslate
@@ -118,6 +119,7 @@ package builder
 //@ emits [C01,C07] "StateSymStack.slice(topIndex-%d , StackPointer)" arg1 == len(b.vnode.G.ProductoinRules[i].RighPart)
 //@ emits [C01,C07] "PopStateSym(%d);" arg1 == len(b.vnode.G.ProductoinRules[i].RighPart)
 //@ loop 0: invariant 1 <= i
+//@ loop 0: decreases len(b.vnode.G.ProductoinRules) - i
 
 // C11 / C17: the code-to-symbol switch and the two trace tables
 //@ func (*TemplateBuilder).buildTranslate
@@ -137,4 +139,5 @@ package builder
 //@ emits [C17] "%s -> %s" arg1 == "use Reduce:" + parser.RemoveTempName(b.vnode.rules[i-1].LeftPart.Name)
 //@ loop 0: invariant true
 //@ loop 2: invariant 1 <= i
+//@ loop 2: decreases len(b.vnode.G.ProductoinRules) - i
 //@ loop 3: invariant oneRule == b.vnode.rules[i-1] && 1 <= i && i < len(b.vnode.G.ProductoinRules)
